@@ -672,6 +672,13 @@ func (l *List) CombineN(sta funcGen.Stack[Value]) (*List, error) {
 		}
 		return NewListFromIterable(func(st funcGen.Stack[Value]) iterator.Producer[Value] {
 			return iterator.CombineN[Value, Value](l.iterable(st), int(n), func(i0 int, i []Value) (Value, error) {
+				// The iterator hands over its ring buffer, which is reused for every
+				// call, with i0 being the position of the oldest element: pass a copy
+				// in the order of the original list.
+				window := make([]Value, 0, len(i))
+				window = append(window, i[i0:]...)
+				window = append(window, i[:i0]...)
+				i = window
 				st.Push(NewList(i...))
 				return f.Func(st.CreateFrame(1), nil)
 			})
